@@ -135,4 +135,16 @@ SPECS = {
         'assumptions': ['PARTIAL SCOPE: only the state-isolation and search==filtered-walk clauses of C17 are decided; layout independence, self-match and regex-equivalence of quantifiers are pure functions of their input and are not decided here',
                         'references are computed by pfst itself in a forked child (relational property)'],
     },
+    'C18': {
+        'engine': 'subsim', 'mod': 'sim.engines', 'quick': 8000, 'thorough': 150000, 'level': 'exploration',
+        'rule': 'one evaluation = one seeded subn() request: program (50 % unique-token; no match statements / f-strings / type '
+                'parameters) x pattern family (10: Name/Call/BinOp/Attribute in Load context, BinOp with two captures, Return, '
+                'Expr(Call), Pass, If, Assign) x template (wrap, identity, double slot, swap, block wrappers) x nested x count '
+                'x on(enter/leave) x back x callback skips, executed twice: with simulator callbacks that run seeded read-only '
+                'query bursts mid-substitution and without; oracle: both executions identical; structure == an independent '
+                'source-ordered transformer on the pure AST; counts == reference; identity template keeps structure; C01 on the '
+                'result; unique tokens outside substituted nodes conserved in order; non-trivial = at least one substitution '
+                'happened; distinct = digest of (request outcome, result source)',
+        'assumptions': _EDIT_ASSUME + ['only pattern/template families the reference can mirror exactly are generated; requests whose reference result is not valid Python are not judged'],
+    },
 }
